@@ -90,6 +90,18 @@ def build_jobs(ctx):
     for edges in inputs.sample(rng, inputs.model_graphs(ctx, "dir", 4), 150 if ctx.quick else 1500):
         A = inputs.mat_from_edges(4, edges, und=False)
         jobs.append(dict(fn=FN, src="model-dir", A=A.tolist()))
+    # ... weighted ones of every density up to "no zero entry at all" (complete, with self-connections)
+    for k in range(40 if ctx.quick else 400):
+        n = rng.randint(2, 9)
+        dens = rng.choice([0.3, 0.7, 1.0, 1.0])
+        A = np.array([[(rng.choice([1, 2, 3, -1, -2]) if rng.random() < dens else 0) for _ in range(n)]
+                      for _ in range(n)], dtype=float)
+        if rng.random() < 0.5:
+            np.fill_diagonal(A, 0)
+        if (A == A.T).all():
+            i, j = rng.sample(range(n), 2)
+            A[i, j] = A[j, i] + 1
+        jobs.append(dict(fn=FN, src="asymmetric-weighted", A=A.tolist()))
     # random larger graphs: forests, isolated nodes, late merges
     nrand = 300 if ctx.quick else 4000
     for k in range(nrand):
